@@ -437,6 +437,96 @@ fn run_y(line: &str) -> String {
     format!("Y {} {} {} {} {} {}", total, dups, fabricated, lost, during, flushes)
 }
 
+// (E) end to end: a real exporter built with the public DogStatsDBuilder (synchronous backend, telemetry off) sending to a
+//   harness-owned UDP socket: `E <aggressive 0|1> <prefix 0|1> <global labels 0|1> <distributions 0|1> <flush interval ms>`
+//   script: counter `ec` += 3, += 4; gauge `eg` = 42; histogram `eh` records 5, 6, 7; wait until the counter's closing zero
+//   has arrived, stay idle for 5 more intervals; counter += 10, gauge = -7; wait for the closing zero, idle 5 more intervals.
+//   stdout: `E <datagram hex>,<datagram hex>,...` in arrival order (`-` if none), the real Forwarder::run loop produced them.
+fn run_e(line: &str) -> String {
+    use metrics::Recorder as _;
+    use metrics_exporter_dogstatsd::{AggregationMode, DogStatsDBuilder};
+    use std::time::{Duration, Instant};
+    static METADATA: metrics::Metadata<'static> = metrics::Metadata::new("verif", metrics::Level::INFO, None);
+    let f: Vec<&str> = line.split_whitespace().collect();
+    let aggressive = f[1] == "1";
+    let prefix = f[2] == "1";
+    let labels = f[3] == "1";
+    let dist = f[4] == "1";
+    let interval = Duration::from_millis(f[5].parse().unwrap());
+    let sock = std::net::UdpSocket::bind("127.0.0.1:0").unwrap();
+    sock.set_read_timeout(Some(Duration::from_millis(10))).unwrap();
+    let port = sock.local_addr().unwrap().port();
+    let mut b = DogStatsDBuilder::default()
+        .with_remote_address(format!("127.0.0.1:{}", port))
+        .unwrap()
+        .with_flush_interval(interval)
+        .with_telemetry(false)
+        .send_histograms_as_distributions(dist)
+        .with_aggregation_mode(if aggressive { AggregationMode::Aggressive } else { AggregationMode::Conservative });
+    if prefix {
+        b = b.set_global_prefix("app");
+    }
+    if labels {
+        b = b.with_global_labels(vec![Label::new("env", "t")]);
+    }
+    let recorder = b.build().unwrap();
+    let got: Arc<Mutex<Vec<Vec<u8>>>> = Arc::new(Mutex::new(Vec::new()));
+    let stop = Arc::new(std::sync::atomic::AtomicBool::new(false));
+    let (got2, stop2) = (got.clone(), stop.clone());
+    let rx = std::thread::spawn(move || {
+        let mut buf = vec![0u8; 65536];
+        while !stop2.load(std::sync::atomic::Ordering::SeqCst) {
+            if let Ok(n) = sock.recv(&mut buf) {
+                got2.lock().unwrap().push(buf[..n].to_vec());
+            }
+        }
+    });
+    // counter values received so far (datagram = one metric line here)
+    let counter_vals = |got: &Arc<Mutex<Vec<Vec<u8>>>>| -> Vec<u64> {
+        got.lock()
+            .unwrap()
+            .iter()
+            .filter(|d| String::from_utf8_lossy(d).split(':').next().map_or(false, |n| n.ends_with("ec")))
+            .map(|d| payload_value(d).parse().unwrap_or(u64::MAX))
+            .collect()
+    };
+    // wait until the deltas received add up to `total` and a zero has followed, at most 5 s
+    let wait_closed = |total: u64| {
+        let t0 = Instant::now();
+        while t0.elapsed() < Duration::from_secs(5) {
+            let v = counter_vals(&got);
+            let sum: u64 = v.iter().fold(0u64, |a, x| a.wrapping_add(*x));
+            if sum == total && v.last() == Some(&0) && v.iter().any(|x| *x != 0) {
+                return;
+            }
+            std::thread::sleep(Duration::from_millis(5));
+        }
+    };
+    let c = recorder.register_counter(&Key::from_name("ec"), &METADATA);
+    c.increment(3);
+    c.increment(4);
+    let g = recorder.register_gauge(&Key::from_name("eg"), &METADATA);
+    g.set(42.0);
+    let h = recorder.register_histogram(&Key::from_name("eh"), &METADATA);
+    h.record(5.0);
+    h.record(6.0);
+    h.record(7.0);
+    wait_closed(7);
+    std::thread::sleep(interval * 5);
+    c.increment(10);
+    g.set(-7.0);
+    wait_closed(17);
+    std::thread::sleep(interval * 5);
+    stop.store(true, std::sync::atomic::Ordering::SeqCst);
+    rx.join().unwrap();
+    let v = got.lock().unwrap();
+    if v.is_empty() {
+        "E -".to_string()
+    } else {
+        format!("E {}", v.iter().map(|d| hex(d)).collect::<Vec<_>>().join(","))
+    }
+}
+
 // only the storage.rs sites take part in the schedule; the registry's own yield points (6xx, C06) inside
 // State::flush are passed through (the registry is not part of this model)
 fn c10_site(site: u32) -> bool {
@@ -454,7 +544,7 @@ fn main() {
         if line.trim().is_empty() {
             continue;
         }
-        let r = if line.starts_with('S') { run_s(&line) } else if line.starts_with('X') { run_x(&line) } else if line.starts_with('Y') { run_y(&line) } else { run_o(&line) };
+        let r = if line.starts_with('S') { run_s(&line) } else if line.starts_with('X') { run_x(&line) } else if line.starts_with('Y') { run_y(&line) } else if line.starts_with('E') { run_e(&line) } else { run_o(&line) };
         writeln!(w, "{}", r).unwrap();
     }
 }
